@@ -13,6 +13,8 @@ Executable model of `plugins_types/identityref.c` and of the pieces of `plugins_
   name the identity in a `base` statement), i.e. "derived from" is the transitive, irreflexive closure;
   **the loop stops at the first base the identity is derived from** — a value is accepted when it is derived from SOME
   base of the type, where RFC 7950 §9.10.2 requires ALL (finding F410; `allBases = true` is the repaired reading);
+* `identityref_check_ident`: an identity disabled by `if-feature` is refused (before the bases are looked at); all modules of the
+  model are implemented;
 * canonical value `module-name:identity-name` (the JSON form), LYB form = the same string, compare = same identity,
   `lyplg_type_sort_identityref` = `strcmp` of the identity NAMES only (finding F411: two identities with the same name in
   different modules are unequal but sort-equal).
@@ -43,13 +45,16 @@ structure PrefixMap where
 
 structure IdCtx where
   defs : List IdDef
+  /-- identities whose `if-feature` is false (`lys_identity_iffeature_value` = `LY_ENOT`): they exist, other identities may be derived
+      from them, but they are not values -/
+  disabled : List Ident := []
 
 inductive IErr
-  | Hint | Empty | NoPrefix | NotFound | NotDerived
+  | Hint | Empty | NoPrefix | NotFound | Disabled | NotDerived
   deriving DecidableEq, Repr
 
 def IErr.name : IErr → String
-  | .Hint => "Hint" | .Empty => "Empty" | .NoPrefix => "NoPrefix" | .NotFound => "NotFound" | .NotDerived => "NotDerived"
+  | .Hint => "Hint" | .Empty => "Empty" | .NoPrefix => "NoPrefix" | .NotFound => "NotFound" | .Disabled => "Disabled" | .NotDerived => "NotDerived"
 
 /-- `base->derived`: the identities that have `b` in a `base` statement -/
 def children (c : IdCtx) (b : Ident) : List Ident :=
@@ -90,7 +95,10 @@ def storeIdWith (allBases : Bool) (c : IdCtx) (bases : List Ident) (pm : PrefixM
       | some m =>
         match c.defs.find? fun d => d.id.mod == m && d.id.name == name with
         | none => .error .NotFound
-        | some d => if checkBase allBases c bases d.id then .ok d.id else .error .NotDerived
+        | some d =>
+          -- `identityref_check_ident` (enabled?) comes before `identityref_check_base`
+          if c.disabled.contains d.id then .error .Disabled
+          else if checkBase allBases c bases d.id then .ok d.id else .error .NotDerived
 
 /-- the tree the model was generated from (`Generated.identBaseAll` is read off `identityref_check_base`) -/
 def storeId := storeIdWith Generated.identBaseAll
